@@ -37,7 +37,7 @@ func (e *Engine) knownActive(assertID, kfID string) bool {
 	return false
 }
 
-var evidenceDir, solverOverride string
+var evidenceDir, solverOverride, crossOverride string
 
 func main() {
 	verifRoot := flag.String("verif", "/verif", "verification root")
@@ -47,6 +47,7 @@ func main() {
 	noReplay := flag.Bool("no-native-replay", false, "do not run native replays (debug)")
 	verbose := flag.Bool("v", false, "verbose")
 	flag.StringVar(&solverOverride, "solver", "", "override the solver of the check config (z3 | z3-new | cvc5)")
+	flag.StringVar(&crossOverride, "cross", "", "cross-check solver (z3 | z3-new | cvc5 | none); default: thorough tier re-asks a second solver, quick tier does not")
 	flag.StringVar(&evidenceDir, "evidence-dir", "", "write the evidence file here instead of <verif>/evidence (used when checking a scratch tree)")
 	flag.Parse()
 	if *replay != "" {
@@ -113,6 +114,18 @@ func runCheck(verifRoot, repoRoot, id, tier string, seed int64, only string, noR
 	}
 	if tier == "thorough" && cfg.QueryTimeoutMs < 60000 {
 		cfg.QueryTimeoutMs = 60000
+	}
+	if crossOverride != "" {
+		cfg.CrossSolver = crossOverride
+	}
+	if cfg.CrossSolver == "" && tier == "thorough" {
+		// thorough tier: every deciding unsat is re-asked of a second solver
+		switch cfg.Solver {
+		case "z3":
+			cfg.CrossSolver = "z3-new"
+		default:
+			cfg.CrossSolver = "z3"
+		}
 	}
 	e := &Engine{cfg: cfg, tier: tier, seed: seed, verifRoot: verifRoot, repoRoot: repoRoot,
 		funcsSeen: map[string]int{}}
@@ -268,6 +281,10 @@ func runCheck(verifRoot, repoRoot, id, tier string, seed int64, only string, noR
 	for _, r := range results {
 		tot += r.Obligations
 		dis += r.Discharged
+	}
+	if cfg.CrossSolver != "" && cfg.CrossSolver != "none" {
+		fmt.Printf("[%s/%s] cross-solver check (%s): %d deciding unsat answers re-asked, %d agree, %d unknown, %d disagree (%.1fs)\n",
+			id, tier, cfg.CrossSolver, atomic.LoadInt64(&crossAsked), atomic.LoadInt64(&crossAgree), atomic.LoadInt64(&crossUnknown), atomic.LoadInt64(&crossDisagree), float64(atomic.LoadInt64(&crossNanos))/1e9)
 	}
 	fmt.Printf("[%s/%s] HELD within bounds: %d/%d obligations discharged, solver queries=%d (%.1fs solver time), wall %.1fs\n",
 		id, tier, dis, tot, atomic.LoadInt64(&solverQueries), float64(atomic.LoadInt64(&solverNanos))/1e9, wall)
@@ -583,6 +600,12 @@ func (e *Engine) writeEvidence(results []*EntryResult, tier string, seed int64, 
 			"bounds":                        e.cfg.Bounds,
 			"solver_queries":                atomic.LoadInt64(&solverQueries),
 			"solver_time_s":                 float64(atomic.LoadInt64(&solverNanos)) / 1e9,
+			"cross_solver":                  e.cfg.CrossSolver,
+			"cross_checked_unsat":           atomic.LoadInt64(&crossAsked),
+			"cross_agree":                   atomic.LoadInt64(&crossAgree),
+			"cross_unknown":                 atomic.LoadInt64(&crossUnknown),
+			"cross_disagree":                atomic.LoadInt64(&crossDisagree),
+			"cross_time_s":                  float64(atomic.LoadInt64(&crossNanos)) / 1e9,
 			"load_time_s":                   e.loadSecs,
 			"trusted_base":                  tb,
 			"known_findings_seen":           known,
@@ -801,7 +824,7 @@ func mergeEvidence(dst, src map[string]interface{}) {
 	if dc == nil || sc == nil {
 		return
 	}
-	for _, k := range []string{"states", "transitions", "traces_validated_against_impl", "obligations", "discharged", "paths", "solver_queries", "solver_time_s", "load_time_s", "panic_paths"} {
+	for _, k := range []string{"states", "transitions", "traces_validated_against_impl", "obligations", "discharged", "paths", "solver_queries", "solver_time_s", "load_time_s", "panic_paths", "cross_checked_unsat", "cross_agree", "cross_unknown", "cross_disagree", "cross_time_s"} {
 		dc[k] = num(dc[k]) + num(sc[k])
 	}
 	de, _ := dc["exhaustive"].(bool)
